@@ -143,9 +143,67 @@ def shared_part(ctx, c):
                                   signature=K.SIGNATURES['F17'] if ls == ['F17'] else None, found_input=True))
 
 
+def msgnest_part(ctx, c):
+    """bundles nested in messages (completion messages): the bytes read back versus the Coq stamping model evaluated at the
+    logical time the sending thread observed (inside routines) / the time the main thread read (outside, bracketed)."""
+    for mode, n in (('nrt', ctx.n(45, 450)), ('rt', ctx.n(24, 160))):
+        rt = mode == 'rt'
+        prs = [K.gen_msgnest(ctx.rng, k, rt) for k in range(n)]
+        res = ctx.impl('c05_kscript', {'msgnest': prs, 'seed': ctx.seed}, mode=mode, timeout=900)['msgnest_out']
+        c.evaluations += len(prs)
+        items, idx = [], []
+        for i, (pr, o) in enumerate(zip(prs, res)):
+            if 'fatal' in o:
+                c.failures.append(Failure('correspondence', 'message-nested bundle probe crashed: %s' % o['fatal'][-400:], replay={'probe': pr}))
+                continue
+            if not o.get('done'):
+                c.count('%s:message-nested bundle not completed in time (machine load); not compared' % mode)
+                continue
+            c.count('%s:message-nested bundle:%s from %s%s' % (mode, pr['form'], 'outside' if pr['parent'] is None else 'routine on ' + K.clock_name(pr['parent']),
+                                                                  ' (raises)' if o.get('raised') else ''))
+            c.nontriv(('msgnest', mode, json.dumps(pr, sort_keys=True)))
+            if 'bounds' in o and not (Fraction(o['bounds'][0]) <= Fraction(o['bounds'][1]) <= Fraction(o['bounds'][2])):
+                c.failures.append(Failure('correspondence', 'RT: a message sent from the main thread used the time %s, the physical clock read %s before and %s after'
+                                          % (o['bounds'][1], o['bounds'][0], o['bounds'][2]), found_input=True, replay={'probe': pr, 'observed': o}))
+            items.append(K.msgnest_item(pr, o, mode)); idx.append(i)
+        bad, errs = fw.check_shards(ctx, 'msgnest_' + mode, K.MSGNEST_HEADER, items, 'Eval vm_compute in bad_idx (fun b : bool => b) cases.', shard=100)
+        for e in errs:
+            c.failures.append(Failure('correspondence', 'coq evaluation of message-nested bundle cases failed: ' + e[:800]))
+        for b in bad[:3]:
+            pr, o = prs[idx[b]], res[idx[b]]
+            c.failures.append(Failure(
+                'correspondence', '%s: a bundle nested in a MESSAGE (%s) sent %s at logical time %s with latency %s is not stamped as the model says '
+                '(logical time + latency / immediately): bytes carry %s, raised=%s. Probe: %s'
+                % (mode.upper(), pr['form'], 'from outside routines' if pr['parent'] is None else 'from a routine on ' + K.clock_name(pr['parent']),
+                   o['T'], pr['lat'], json.dumps(o.get('nested')), o.get('raised'), json.dumps(pr)),
+                theorem='stamp_is_logical_plus_latency', found_input=True,
+                replay={'probe': pr, 'observed': o, 'mode': mode, 'payload_key': 'msgnest',
+                        'how': 'SC3_MODE=%s PYTHONPATH=$SC3_REPO:/verif/harness python harness/impl/c05_kscript.py <in.json with {"msgnest":[probe]}> out.json' % mode}))
+
+
+def heap_part(ctx, c):
+    """equal times + later-sent earlier bundles (the queue behind the score is reshuffled): list order = (time, send order)"""
+    cases = [K.gen_heap_prog(ctx.rng) for _ in range(ctx.n(16, 160))]
+    outs, bad, explain, errors = K.run_nrt_correspondence(ctx, cases, 'nrt_heap')
+    c.evaluations += len(cases)
+    for i, e in errors:
+        c.failures.append(Failure('correspondence', 'NRT heap case %d could not be compared: %s' % (i, e[:600]), replay={'program': cases[i] if i >= 0 else None}))
+    for p, o in zip(cases, outs):
+        if 'fatal' not in o:
+            c.count('nrt:score with runs of equal times and later-sent earlier bundles')
+            c.nontriv(('heap', json.dumps(p, sort_keys=True)))
+    for i in bad[:3]:
+        mons = K.score_monitors(cases[i], outs[i])
+        th, _, text = mons[0] if mons else ('score_sorted_stable', None, 'model and implementation disagree (codes %s)' % (explain.get(i),))
+        c.failures.append(Failure('correspondence', '%s fails on the real library (NRT): %s. Program: %s' % (th, text, json.dumps(cases[i])),
+                                  theorem=th, found_input=True, replay={'program': cases[i], 'observed_score': outs[i]['score']}))
+
+
 def correspond(ctx):
     c = Corr()
     unit_part(ctx, c)
+    msgnest_part(ctx, c)
+    heap_part(ctx, c)
     shared_part(ctx, c)
     cases, outs = T.nrt_part(ctx, c, ctx.n(150, 1500), MINE, None)
     T.rt_part(ctx, c, ctx.n(30, 270))
